@@ -60,6 +60,8 @@ def run(ctx):
             enc = rng.choice(['utf-8', 'utf-8', 'utf-16', 'latin-1', 'cp1252'])
             w = rng.choice([1, 2, 3])
             hdr = ['f%d' % i for i in range(w)] if rng.random() < 0.7 else [rand_text(rng, enc) or 'h' for _ in range(w)]
+            if enc in ('utf-8', 'utf-16') and rng.random() < 0.15:
+                hdr[0] = '\ufeff' + hdr[0]        # a cell that starts with U+FEFF is data, not a byte-order mark
             def mkrow():
                 k = w if rng.random() < 0.8 else rng.choice([0, 1, w + 1])
                 return [rand_text(rng, enc) if rng.random() < 0.75 else rng.choice(TYPED) for _ in range(k)]
@@ -95,7 +97,13 @@ def run(ctx):
                 ctx.count('csv:' + kind)
                 ctx.exact(back == want, case)
                 if back != want:
-                    fail('csv|roundtrip|%s' % kind, 'tocsv then fromcsv does not return the table as text', dict(case, got=repr(back), want=repr(want)))
+                    sig = 'csv|roundtrip|%s' % kind
+                    if kind == 'bz2' and enc == 'utf-16' and T and T[0] and isinstance(T[0][0], str) and T[0][0].startswith('\ufeff') \
+                            and back and back[0] and want[0][0] == '\ufeff' + back[0][0] and back[0][1:] == want[0][1:] and back[1:] == want[1:]:
+                        # the known missing byte-order mark of utf-16 on a .bz2 target, seen through data that starts with U+FEFF:
+                        # the reader takes the character for the mark
+                        sig = 'csv|roundtrip|utf-16|bz2|leading-U+FEFF-taken-for-BOM'
+                    fail(sig, 'tocsv then fromcsv does not return the table as text', dict(case, got=repr(back), want=repr(want)))
                 # header flags
                 if kind in ('path',):
                     p2 = path('.csv')
